@@ -13,7 +13,7 @@ tools/kl_hold.c, an LD_PRELOAD shim, stops the forked child of robsd-exec
 before setsid(2) with the protocol of VERIF_POINT (script ops H / U), so the
 runner's 1000 ms handshake expires; op E lets the configured timeout pass.
 """
-import hashlib, json, os, subprocess, sys
+import hashlib, json, os, re, subprocess, sys
 from concurrent.futures import ThreadPoolExecutor
 import common
 
@@ -27,7 +27,11 @@ TRUSTED = [
     'the waiteof() handshake is modelled (hpolls reads, then the "process group failure" path); the child being slow is '
     'an environment choice (label LUp); a child that dies before closing the pipe (setsid failure) is not modelled',
     'sync-point hook verif.h/step-exec.c (ROBSD_VERIF), tools/kl_sched.py (scheduler, /proc scanner), tools/proctree.c (probe), '
-    'tools/kl_hold.c (LD_PRELOAD shim: sync point in the forked child before setsid)',
+    'tools/kl_hold.c (LD_PRELOAD shim: sync point in the forked child before setsid; log of the kill(2) calls)',
+    'which signals the runner sent to the group is read from its kill(2) calls (interposed by tools/kl_hold.c), which waitpid it is '
+    'blocked in from /proc/<pid>/syscall (first argument of wait4: -pid = step_exec, pid = the failure path of step_fork); the runner\'s '
+    'words on stderr are recorded and compared but decide nothing, except "process group failure" for a runner that was never '
+    'seen blocked on the failure path',
     'exitstatus(): KillDefs.exitstatus is proved equal to C06\'s clang-translated Gen_Exec.exitstatus for all integers '
     '(C07_exit_mapping); the translation itself is C06\'s',
 ]
@@ -109,6 +113,15 @@ def scripts_for(tree, rng, full):
     for p in (kpts if full else [rng.choice(kpts)]):
         add('regress', 3600, [('B', ''), ('S', 'TERM'), ('R', p), ('S', 'ALRM'), ('F', '')])
         add('regress', 3600, [('B', ''), ('S', 'ALRM'), ('R', p), ('S', 'TERM'), ('F', '')])
+    # --- repeated termination requests: robsd-kill's `while pkill -f "^robsd-exec ..."; do sleep .1; done` sends SIGTERM
+    #     again and again until the runner is gone; the runner must go on waiting / escalating all the same -----------
+    add('canvas', 0, [('B', ''), ('S', 'TERM'), ('R', 'kill.after_term'), ('S', 'TERM'), ('F', '')])
+    add('canvas', 0, [('R', 'exec.after_sigterm'), ('S', 'TERM'), ('B', ''), ('S', 'TERM'), ('F', '')])   # the resend heals window 2
+    if full or main_ign:
+        add('regress', 3600, [('B', ''), ('S', 'TERM'), ('R', 'exec.wait_interrupted'), ('S', 'TERM'), ('R', 'kill.after_term'),
+                              ('S', 'TERM'), ('F', '')])
+    if main_ign:
+        add('canvas', 0, [('B', ''), ('S', 'TERM'), ('R', 'kill.before_kill'), ('S', 'TERM'), ('F', '')])
     # --- members exiting on their own ------------------------------------------------------
     if main_early:
         add('canvas', 0, [('B', ''), ('X', 0), ('F', '')])                       # no event
@@ -283,30 +296,110 @@ def oracle_line(case, o):
     return ' '.join(['ok', case['tree'], c[4], c[5], c[6], c[9], c[0], c[1], c[2], c[3]])
 
 
+def main_code(tree):
+    """exit code (mod 256) with which the main process exits on its own, None if it cannot"""
+    m = re.match(r'[di]e(\d+)', tree)
+    return int(m.group(1)) % 256 if m else None
+
+
+def untouched(case, o):
+    """nobody was signalled by the runner: no kill(2) at all, and exactly the members that exited on their own are dead"""
+    return (not o['kills'] and not o.get('kills_other')
+            and all(o['alive'][i] == (0 if i in o['selfexit'] else 1) for i in range(case['nodes'])))
+
+
+def shape_before_handler(case, o):
+    """what C07_sigterm_before_handler_refuted predicts for EVERY tree and schedule: the runner is killed by the SIGTERM,
+    the main process is never reaped, nothing is sent, exactly the members that do not exit on their own stay alive"""
+    return o['result'] == ['killed', 15] and o['main'] != 'reaped' and untouched(case, o)
+
+
+def shape_before_wait(case, o, last_sig):
+    """what C07_signal_before_waitpid_refuted predicts: the signal only sets gotsig - nothing is sent, nobody touched, the
+    runner is not killed; it ends only after the main process exited on its own, with exitstatus(status, gotsig) (124 for
+    the alarm), or - after a failed handshake - with that code or 1; else it hangs (the event is lost)"""
+    if not untouched(case, o) or o['result'][0] == 'killed':
+        return False
+    if o['result'][0] == 'hang':
+        return True
+    c, k = o['result'][1], main_code(case['tree'])
+    if o.get('slow'):
+        return ((o['main'] == 'reaped' and 0 in o['selfexit'] and k is not None and c == (k or 1))
+                or (o['main'] != 'reaped' and c == 1))
+    return o['main'] == 'reaped' and 0 in o['selfexit'] and k is not None and c == (124 if last_sig == 'ALRM' else k)
+
+
+def shape_group_failure(case, o, sig):
+    """what C07_signal_during_group_failure_refuted predicts: SIGTERM -> exit 1 at once, main not reaped, nothing sent;
+    expiry of the timeout -> not noticed at all (the runner goes on as if nothing had happened)"""
+    if not untouched(case, o) or not o.get('slow'):
+        return False
+    if sig == 'TERM':
+        return o['result'] == ['exit', 1] and o['main'] != 'reaped'
+    if o['result'][0] == 'hang':
+        return True
+    k = main_code(case['tree'])
+    return o['result'][0] == 'exit' and o['main'] == 'reaped' and 0 in o['selfexit'] and k is not None and o['result'][1] == (k or 1)
+
+
 def signature(case, o):
+    """An oracle failure is one of the three KNOWN windows only when (1) the RECORDED places of the deliveries put it
+    there - the first event reached the runner at a sync point of that window and no later one found it blocked in
+    waitpid(-pid) - and (2) the observation has exactly the shape the window theorem predicts.  Everything else keeps a
+    signature of its own."""
     event, late, self_, where = history_of_obs(case, o)
-    if case.get('race'):
-        if o['result'][0] == 'killed':
-            return 'sigterm-before-handler'
-        if not o['kills']:
-            return 'signal-before-waitpid'
-        return 'race-unclassified'
+    live = [(s, w) for s, w in o['deliveries'] if w not in ('exited', 'exec.after_wait')]
+    last_sig = live[-1][0] if live else None
     if event is None:
         return 'no-event-' + ('cut' if o['kills'] else 'status-or-survivors')
-    if where in PRE_HANDLER:
+    # undriven runs: the scheduler only knows whether the runner sat in waitpid when the signal was sent
+    pre_handler = PRE_HANDLER + (('running',) if case.get('race') else ())
+    pre_wait = PRE_WAIT + (('running',) if case.get('race') else ())
+    if live and live[0][0] == 'TERM' and live[0][1] in pre_handler and shape_before_handler(case, o):
         return 'sigterm-before-handler'
-    if where in PRE_WAIT:
+    if live and all(w in pre_wait for _, w in live) and shape_before_wait(case, o, last_sig):
         return 'signal-before-waitpid'
-    if where in GROUP_FAIL and not o['kills'] and (event == 'ALRM' or o['result'] == ['exit', 1]):
-        # the shape of the known finding: SIGTERM -> exit 1 at once / expiry unnoticed, nothing sent to the group
+    if live and live[0][1] in GROUP_FAIL and all(w in GROUP_FAIL + ('exec.after_wait', 'exited') for _, w in o['deliveries']) \
+            and shape_group_failure(case, o, live[0][0]):
         return 'signal-during-group-failure'
+    tag = 'race-' if case.get('race') else ''
     if o['result'][0] != 'exit':
-        return 'runner-%s-after-event-at-%s' % (o['result'][0], where)
+        return '%srunner-%s-after-event-at-%s' % (tag, o['result'][0], where)
     if o['main'] != 'reaped':
-        return 'main-not-reaped-after-event-at-%s' % where
+        return '%smain-not-reaped-after-event-at-%s' % (tag, where)
     if o['kills'][:1] != [15]:
-        return 'no-group-sigterm-after-event-at-%s' % where
-    return 'survivor-or-status-after-event-at-%s' % where
+        return '%sno-group-sigterm-after-event-at-%s' % (tag, where)
+    return '%ssurvivor-or-status-after-event-at-%s' % (tag, where)
+
+
+def literal_readings(case, o):
+    """(signature, what) for every clause of the property text that this run - accepted by spec_okb - contradicts when the
+    text is read literally.  Theorems C07_survivors_literal_refuted, C07_status_nonzero_literal_refuted,
+    C07_timeout_status_literal_refuted state that the faithful model does the same."""
+    out = []
+    event, late, self_, where = history_of_obs(case, o)
+    _, ign = early_nodes(case['tree'])
+    gone = o['result'][0] in ('exit', 'killed')
+    survivors = [i for i in range(case['nodes']) if o['alive'][i] and i not in ign]
+    if event is None and gone and survivors:
+        # (a) "No process of the step that keeps the default signal disposition outlives the step runner" - unconditional
+        out.append(('default-member-outlives-runner-after-normal-end',
+                    'no event: the step\'s main process ended by itself, the runner exited %s and left member(s) %r with the '
+                    'default disposition running' % (o['result'][1], survivors)))
+    if event is not None and o['result'] == ['exit', 0]:
+        # (b) "... and only then exits, with a non-zero status"
+        out.append(('status-zero-after-termination-request',
+                    'a %s reached the runner while the step was running, the group was signalled %r and the runner exited 0 '
+                    '(the main process had exited 0 by itself)' % (event, o['kills'])))
+    hits = [sg for sg, w in o['deliveries'] if w == 'blocked']
+    if hits and o['result'][0] == 'exit':
+        # (c) "... that is 124 for a timeout": the event that found the runner in waitpid(-pid) is what takes the group down
+        c124 = o['result'][1] == 124
+        if hits[0] == 'ALRM' and not c124:
+            out.append(('status-follows-last-signal', 'the timeout took the group down, a later SIGTERM turned the status into %d' % o['result'][1]))
+        if hits[0] == 'TERM' and c124:
+            out.append(('status-follows-last-signal', 'a termination request took the group down, a later alarm turned the status into 124'))
+    return out
 
 
 def describe(case, o):
@@ -329,6 +422,14 @@ def evaluate(ctx, cases, res, env=None):
     with ThreadPoolExecutor(24) as ex:
         obs = list(ex.map(lambda ic: run_impl(env['impl'], env['probe'], env['hold'], env['work'], base + ic[0], ic[1]),
                           enumerate(cases)))
+    # OUTSIDE the driven schedule: the real 1000 ms handshake expired although the script did not hold the child (24
+    # cases run at once: the forked child was not scheduled in time - C06's finding handshake-timeout-masks-exit-zero seen
+    # live).  Such a run is not the scripted schedule; it is repeated on its own, and only a repetition that shows the same
+    # is judged.
+    for i, (c, o) in enumerate(zip(cases, obs)):
+        if 'error' not in o and not c.get('race') and o.get('slow') and not expected_slow(c):
+            res.count('outside: handshake expired without the shim (machine load), case repeated')
+            obs[i] = run_impl(env['impl'], env['probe'], env['hold'], env['work'], 10 ** 6 + base + i, c)
     qs = []
     for c, o in zip(cases, obs):
         if 'error' in o:
@@ -361,6 +462,12 @@ def evaluate(ctx, cases, res, env=None):
             res.count('race: delivered while %s' % (o['deliveries'][0][1] if o['deliveries'] else '?'))
         if event or late or o['selfexit'] or o.get('slow'):
             res.nontrivial.add(key)
+        if o.get('kills_other'):
+            res.oracle_failures.append({'case': c, 'signature': 'runner-signals-something-else',
+                                        'what': 'the runner called kill(2) on %r (target, signal), not on the step\'s process group: %s'
+                                                % (o['kills_other'][:4], describe(c, o)), 'impl': impl_s})
+        if o.get('kills_text') != o['kills']:
+            res.count('the runner\'s words ("sending ... signal") differ from its kill(2) calls')
         if not c.get('race') and bool(o.get('slow')) != expected_slow(c) and o['result'][0] != 'killed':
             res.oracle_failures.append({'case': c, 'signature': 'handshake-outcome',
                                         'what': 'the runner %s "process group failure" although the child was %sheld beyond '
@@ -381,15 +488,20 @@ def evaluate(ctx, cases, res, env=None):
             if c.get('race'):
                 res.count('race: real (undriven) hit of ' + signature(c, o))
             res.oracle_failures.append({'case': c, 'signature': signature(c, o), 'what': describe(c, o), 'impl': impl_s})
+        else:
+            # THE LETTER OF THE PROPERTY where the specification [spec] is more lenient (Exec/KillLiteral.v): runs the
+            # oracle accepts are judged once more against the literal reading of three clauses
+            for lit in literal_readings(c, o):
+                res.oracle_failures.append({'case': c, 'signature': lit[0], 'what': lit[1] + ': ' + describe(c, o), 'impl': impl_s})
     return env
 
 
 def load_corpus():
     import glob
-    cases = []
-    for p in sorted(glob.glob(os.path.join(common.VERIF, 'corpus', 'C07', '*.json'))):
-        cases.append(json.load(open(p)))
-    return cases
+    files = sorted(glob.glob(os.path.join(common.VERIF, 'corpus', 'C07', '*.json')))
+    if not files:
+        raise common.BuildFailure('corpus/C07 is missing or empty: the cases of the known findings would not run')
+    return [json.load(open(p)) for p in files]
 
 
 def run(ctx, thorough=None):
